@@ -7,8 +7,8 @@
               (no whitespace, `,` `:` separators, rule-8 escapes, plain
               integers, `d.d+E[-]d+` floats);
   * recognisers of the number forms (`isIntPlain`, `isFloatForm`), of sorted
-    members, of "clean" strings (rule 1/8.3, as the code implements it: a
-    string containing U+FFFD is refused);
+    members, of "clean" strings (rule 1/8.3: a string is a sequence of Unicode
+    scalar values — U+FFFD is one of them; anything else has no UTF-8 encoding);
   * `decodeAtom` — reads one leaf back from canonical text (used to state that
     parsing gives back the content).
 -/
@@ -91,9 +91,12 @@ end
 /-- the logical content of a JSON value: members sorted by key, null members dropped -/
 def norm (v : J) : J := dropJ (sortJ v)
 
-/-! ## rule 1 / 8.3 as implemented: U+FFFD marks "invalid encoding" -/
+/-! ## rule 1 / 8.3: a string with invalid encoding is refused
 
-def cleanS (s : Str) : Bool := !s.contains 0xFFFD
+A string is valid when every element is a Unicode scalar value (`isScalar`: below
+0x110000 and no surrogate).  U+FFFD is a scalar value like any other. -/
+
+def cleanS (s : Str) : Bool := s.all isScalar
 
 def cleanA : Atom → Bool
   | .str s => cleanS s
